@@ -74,6 +74,7 @@ class ShardState(object):
         self.failures = {}          # sig -> dict
         self.excluded_dup = collections.Counter()
         self.excluded_known = collections.Counter()
+        self.recent = collections.deque(maxlen=6)
 
 
 def _describe(prop, case):
@@ -87,6 +88,8 @@ def _describe(prop, case):
 def _execute(prop, prop_id, case, st, open_entries, origin):
     """Run one concrete case, book-keep.  Never raises Violation."""
     st.evaluations += 1
+    recent = list(st.recent)
+    st.recent.append(case)
     try:
         res = prop.run_case(case)
     except Violation as v:
@@ -97,9 +100,14 @@ def _execute(prop, prop_id, case, st, open_entries, origin):
             return
         if sig in st.failures:
             st.excluded_dup[sig] += 1
+            alt = st.failures[sig].setdefault('alternates', [])
+            if len(alt) < 8:
+                alt.append(case)
             return
+        # `recent`: the cases this process ran just before; needed to reproduce a failure
+        # that depends on state the repository keeps between objects in one process
         st.failures[sig] = {'signature': sig, 'facet': v.facet, 'detail': v.detail,
-                            'case': case, 'origin': origin}
+                            'case': case, 'origin': origin, 'recent': recent}
         return
     if res is None:
         return
@@ -222,14 +230,73 @@ def replay(prop_id, path):
     with open(path) as f:
         data = json.load(f)
     case = data['case'] if 'case' in data else data
+    for pre in data.get('prelude') or []:
+        # cases that ran earlier in the same process when the failure was found (the failure
+        # depends on state the repository keeps between objects); their outcome is ignored
+        try:
+            prop.run_case(pre)
+        except Exception:
+            pass
     try:
         prop.run_case(case)
     except Violation as v:
         print('replay: %s' % v)
+        print('replay-signature: %s' % v.signature(prop_id))
         print('VIOLATION property=%s replay=%s' % (prop_id, path))
         return 1
     print('replay: property held on this case')
     return 0
+
+
+def reproduces_in_isolation(prop_id, sig, case, prelude):
+    """Replays (prelude +) case in a fresh process; True iff the same signature is raised."""
+    import subprocess
+    import tempfile
+    fd, tmp = tempfile.mkstemp(prefix='mpverif-iso-', suffix='.json')
+    try:
+        with os.fdopen(fd, 'w') as f:
+            json.dump({'case': case, 'prelude': prelude}, f, default=str)
+        r = subprocess.run([sys.executable, '-c',
+                            'import sys; from vp.runner import main; sys.exit(main())',
+                            prop_id, '--replay', tmp], cwd=common.VERIF_DIR,
+                           stdout=subprocess.PIPE, stderr=subprocess.STDOUT, text=True,
+                           timeout=600, env=dict(os.environ, PYTHONHASHSEED='0',
+                                                 PYTHONDONTWRITEBYTECODE='1'))
+        return r.returncode == 1 and ('replay-signature: %s' % sig) in r.stdout
+    except Exception:
+        return False
+    finally:
+        try:
+            os.unlink(tmp)
+        except OSError:
+            pass
+
+
+def isolate(prop_id, sig, rec):
+    """Decide which concrete reproduction goes into the replay file: the shrunk case alone,
+    the original case alone, or the original case preceded by the cases that ran just before
+    it in the same process.  Returns (case, prelude, note)."""
+    shrunk = rec.get('shrunk_case')
+    if shrunk is not None and reproduces_in_isolation(prop_id, sig, shrunk, []):
+        return shrunk, [], 'shrunk case reproduces in a fresh process'
+    if reproduces_in_isolation(prop_id, sig, rec['case'], []):
+        return rec['case'], [], 'unshrunk case reproduces in a fresh process (the shrunk one ' \
+                                'did not: it depended on earlier cases)'
+    for alt in rec.get('alternates') or []:
+        if reproduces_in_isolation(prop_id, sig, alt, []):
+            return alt, [], 'another failing case of the same signature reproduces in a fresh ' \
+                            'process (the first one found depended on earlier cases)'
+    recent = rec.get('recent') or []
+    for k in (1, 2, 4, 6):
+        pre = recent[-k:]
+        if len(pre) < k and k > 1 and len(pre) == len(recent[-(k // 2):]):
+            continue
+        if reproduces_in_isolation(prop_id, sig, rec['case'], pre):
+            return rec['case'], pre, ('STATE-DEPENDENT: reproduces in a fresh process only after '
+                                      'the %d case(s) in "prelude" (state kept by the '
+                                      'repository between objects of one process)' % len(pre))
+    return rec.get('shrunk_case', rec['case']), [], \
+        'NOT reproduced in a fresh process (observed once in the search process)'
 
 
 # ---------------------------------------------------------------- main
@@ -333,6 +400,12 @@ def main(argv=None):
                 failures[sig] = rec
             if cur is not None:
                 excluded_dup[sig] += 1
+                keep = failures[sig]
+                alts = keep.setdefault('alternates', [])
+                other = cur if keep is rec else rec
+                for c in [other['case']] + (other.get('alternates') or []):
+                    if len(alts) < 16:
+                        alts.append(c)
     for rec in failures.values():
         rec.setdefault('_size', 0)
     samples = samples + samples_any
@@ -343,12 +416,17 @@ def main(argv=None):
         os.makedirs(OUT_DIR, exist_ok=True)
     for sig in sorted(failures):
         rec = failures[sig]
-        case = rec.get('shrunk_case', rec['case'])
+        if rec['origin'].startswith('corpus'):
+            case, prelude, note = rec['case'], [], 'corpus case'
+        else:
+            case, prelude, note = isolate(prop_id, sig, rec)
+        rec['isolation_note'] = note
         path = os.path.join(OUT_DIR, '%s-%s.json' % (prop_id, sig_hash(sig)))
         with open(path, 'w') as f:
             json.dump({'property': prop_id, 'signature': sig, 'facet': rec['facet'],
                        'detail': rec.get('shrunk_detail', rec['detail']),
-                       'origin': rec['origin'], 'case': case,
+                       'origin': rec['origin'], 'case': case, 'prelude': prelude,
+                       'isolation': note,
                        'unshrunk_case': rec['case'] if 'shrunk_case' in rec else None,
                        'seed': a.seed, 'tier': a.tier,
                        'replay_cmd': './check %s --replay %s' % (prop_id, path)},
@@ -400,6 +478,8 @@ def main(argv=None):
           % (prop_id, a.tier, a.seed, evaluations, len(nontrivial), len(viol_lines), wall))
     for sig, rec, path in viol_lines:
         print('  violated: %s -- %s' % (sig, (rec.get('shrunk_detail') or rec['detail'])[:300]))
+        if not rec.get('isolation_note', '').startswith('shrunk case'):
+            print('    (%s)' % rec.get('isolation_note'))
         print('VIOLATION property=%s replay=%s' % (prop_id, path))
     if viol_lines:
         if harness_errors:
